@@ -135,10 +135,15 @@ type Factory struct {
 	// naive per-branch bookkeeping used only to *choose* valid spends
 	utxo []map[wire.OutPoint]Coin
 	// Universe: every outpoint any block of the scenario creates
-	Universe map[wire.OutPoint]bool
-	SpendP   float64                                     // probability that a block spends an available coin
-	DupP     float64                                     // probability that a coinbase re-creates a fully spent ancestor coinbase
-	Rule     func(f *Factory, b int, blk *wire.MsgBlock) // optional catalogue flaw (C01)
+	Universe   map[wire.OutPoint]bool
+	SpendP     float64          // probability that a block spends an available coin
+	DupP       float64          // probability that a coinbase re-creates a fully spent ancestor coinbase
+	FeeP       float64          // probability that a spend pays a fee
+	EdgeP      float64          // probability that a valid block sits exactly on a limit (catalogue mode)
+	Catalogue  bool             // flawed blocks violate a rule drawn from the catalogue of their stage (C01); otherwise one fixed rule per stage
+	RuleName   []string         // per block: the catalogue entry used
+	Pre        []*btcutil.Block // real blocks between the real genesis and abstract block 0 (catalogue mode: they provide mature coins)
+	BaseHeight int32
 }
 
 var opTrue = []byte{txscript.OP_TRUE}
@@ -161,7 +166,7 @@ func NewFactory(sc *Scenario, o NetOpts, seed int64) *Factory {
 	f := &Factory{Sc: sc, Params: NewParams(base, o), Base: base,
 		Blocks: make([]*btcutil.Block, sc.N+1), ByHash: map[chainhash.Hash]int{},
 		rng: rand.New(rand.NewSource(seed)), utxo: make([]map[wire.OutPoint]Coin, sc.N+1),
-		Universe: map[wire.OutPoint]bool{}, SpendP: 0.6, DupP: 0.15}
+		Universe: map[wire.OutPoint]bool{}, SpendP: 0.6, DupP: 0.15, FeeP: 0.5, EdgeP: 0.5, RuleName: make([]string, sc.N+1)}
 	f.Blocks[0] = btcutil.NewBlock(f.Params.GenesisBlock)
 	f.Blocks[0].SetHeight(0)
 	f.ByHash[*f.Params.GenesisHash] = 0
@@ -174,12 +179,20 @@ func (f *Factory) Now() time.Time { return f.Base.Add(20 * time.Hour) }
 
 func (f *Factory) mtp(b int) time.Time {
 	var ts []int64
-	for i, n := 0, b; i < 11; i++ {
+	n := b
+	for len(ts) < 11 {
 		ts = append(ts, f.Blocks[n].MsgBlock().Header.Timestamp.Unix())
 		if n == 0 {
 			break
 		}
 		n = f.Sc.Parent[n]
+	}
+	// below abstract block 0: the preamble (Pre[len-1] is block 0 itself) and the real genesis
+	for i := len(f.Pre) - 2; i >= 0 && len(ts) < 11; i-- {
+		ts = append(ts, f.Pre[i].MsgBlock().Header.Timestamp.Unix())
+	}
+	if len(f.Pre) > 0 && len(ts) < 11 {
+		ts = append(ts, f.Params.GenesisBlock.Header.Timestamp.Unix())
 	}
 	for i := range ts {
 		for j := i + 1; j < len(ts); j++ {
@@ -191,6 +204,60 @@ func (f *Factory) mtp(b int) time.Time {
 	return time.Unix(ts[len(ts)/2], 0)
 }
 
+// Preamble mines k real blocks on the genesis block and makes the last one
+// abstract block 0, so that mature coins of every kind exist at every abstract
+// height. Must be called before BuildAll.
+func (f *Factory) Preamble(k int) {
+	prev := f.Blocks[0]
+	set := map[wire.OutPoint]Coin{}
+	for i := 1; i <= k; i++ {
+		cb := wire.NewMsgTx(1)
+		cb.AddTxIn(&wire.TxIn{PreviousOutPoint: *wire.NewOutPoint(&chainhash.Hash{}, wire.MaxPrevOutIndex),
+			SignatureScript: coinbaseScript(900000+i, 0), Sequence: wire.MaxTxInSequenceNum})
+		cb.AddTxOut(&wire.TxOut{Value: subsidy, PkScript: opTrue})
+		txs := []*wire.MsgTx{cb}
+		// from the third block on, split an earlier coinbase into several outputs (one of them unspendable by script)
+		if i >= 3 {
+			for op, c := range set {
+				if c.Coinbase && int32(i)-c.Height >= int32(f.Params.CoinbaseMaturity) && c.Height == int32(i)-2 {
+					tx := wire.NewMsgTx(1)
+					tx.LockTime = uint32(900000 + i)
+					tx.AddTxIn(&wire.TxIn{PreviousOutPoint: op, Sequence: wire.MaxTxInSequenceNum})
+					q := c.Amount / 4
+					tx.AddTxOut(&wire.TxOut{Value: q, PkScript: opTrue})
+					tx.AddTxOut(&wire.TxOut{Value: q, PkScript: []byte{txscript.OP_1, txscript.OP_NOP}})
+					tx.AddTxOut(&wire.TxOut{Value: q, PkScript: opTrue})
+					tx.AddTxOut(&wire.TxOut{Value: c.Amount - 3*q, PkScript: []byte{txscript.OP_0}})
+					txs = append(txs, tx)
+					delete(set, op)
+					h := tx.TxHash()
+					for oi, o := range tx.TxOut {
+						set[wire.OutPoint{Hash: h, Index: uint32(oi)}] = Coin{o.Value, o.PkScript, false, int32(i)}
+					}
+					break
+				}
+			}
+		}
+		set[wire.OutPoint{Hash: cb.TxHash()}] = Coin{subsidy, opTrue, true, int32(i)}
+		blk := &wire.MsgBlock{Header: wire.BlockHeader{Version: 0x20000000, PrevBlock: *prev.Hash(), Bits: easyBits,
+			Timestamp: prev.MsgBlock().Header.Timestamp.Add(1201 * time.Second)}}
+		ub := make([]*btcutil.Tx, len(txs))
+		for j, tx := range txs {
+			blk.AddTransaction(tx)
+			ub[j] = btcutil.NewTx(tx)
+		}
+		blk.Header.MerkleRoot = blockchain.CalcMerkleRoot(ub, false)
+		solve(&blk.Header)
+		prev = btcutil.NewBlock(blk)
+		prev.SetHeight(int32(i))
+		f.Pre = append(f.Pre, prev)
+	}
+	f.BaseHeight = int32(k)
+	f.Blocks[0] = prev
+	f.ByHash[*prev.Hash()] = 0
+	f.utxo[0] = set
+}
+
 // BuildAll builds every block in id order (parents have smaller ids).
 func (f *Factory) BuildAll() {
 	for b := 1; b <= f.Sc.N; b++ {
@@ -198,15 +265,73 @@ func (f *Factory) BuildAll() {
 	}
 }
 
+// blockBuilder is a block under construction; catalogue rules edit it before
+// it is finalised (coinbase value, merkle root, proof of work).
+type blockBuilder struct {
+	f        *Factory
+	b, p     int
+	height   int32
+	avail    []cand                 // coins of the parent's UTXO set, sorted
+	mine     map[wire.OutPoint]Coin // UTXO set after the regular transactions of this block
+	txs      []*wire.MsgTx
+	fees     int64
+	cbDelta  int64 // added to the coinbase value (subsidy + fees) when finalising
+	hdr      wire.BlockHeader
+	post     func(h *wire.BlockHeader) // header edit after the merkle root is set
+	unsolved bool                      // leave the hash above the target
+	isLeaf   bool
+}
+
+type cand struct {
+	op wire.OutPoint
+	c  Coin
+}
+
+func (bb *blockBuilder) spendable(c Coin) bool {
+	return !(c.Coinbase && int32(bb.f.Params.CoinbaseMaturity) > bb.height-c.Height)
+}
+
+// freeCoin returns a coin of the parent's set that no transaction of this
+// block spends yet and that passes ok.
+func (bb *blockBuilder) freeCoin(ok func(Coin) bool) (cand, bool) {
+	for _, cd := range bb.avail {
+		if _, unspent := bb.mine[cd.op]; unspent && ok(cd.c) {
+			return cd, true
+		}
+	}
+	return cand{}, false
+}
+
+func (bb *blockBuilder) newSpend(cd cand, fee int64) *wire.MsgTx {
+	tx := wire.NewMsgTx(1)
+	tx.LockTime = uint32(bb.b*1000 + len(bb.txs) + 500)
+	tx.AddTxIn(&wire.TxIn{PreviousOutPoint: cd.op, Sequence: wire.MaxTxInSequenceNum})
+	tx.AddTxOut(&wire.TxOut{Value: cd.c.Amount - fee, PkScript: opTrue})
+	return tx
+}
+
 func (f *Factory) build(b int) {
 	sc := f.Sc
 	p := sc.Parent[b]
 	parent := f.Blocks[p]
-	height := int32(sc.Height(b))
+	height := int32(sc.Height(b)) + f.BaseHeight
 	pu := f.utxo[p]
-	mine := make(map[wire.OutPoint]Coin, len(pu)+4)
+	bb := &blockBuilder{f: f, b: b, p: p, height: height, mine: make(map[wire.OutPoint]Coin, len(pu)+4), isLeaf: true}
+	for c := 1; c <= sc.N; c++ {
+		if sc.Parent[c] == b {
+			bb.isLeaf = false
+		}
+	}
 	for k, v := range pu {
-		mine[k] = v
+		bb.mine[k] = v
+		bb.avail = append(bb.avail, cand{k, v})
+	}
+	for i := range bb.avail {
+		for j := i + 1; j < len(bb.avail); j++ {
+			if lessOP(bb.avail[j].op, bb.avail[i].op) {
+				bb.avail[i], bb.avail[j] = bb.avail[j], bb.avail[i]
+			}
+		}
 	}
 	flaw := sc.Flaw[b]
 
@@ -215,110 +340,134 @@ func (f *Factory) build(b int) {
 	// forbids overwriting unspent outputs)
 	cb := wire.NewMsgTx(1)
 	cbScript := coinbaseScript(b, 0)
+	dup := false
 	if f.Params.BIP0034Height > height && f.rng.Float64() < f.DupP {
 		for a := p; a != 0; a = sc.Parent[a] {
+			if sc.Flaw[a] != "none" || len(f.Blocks[a].MsgBlock().Transactions) == 0 {
+				continue
+			}
 			acb := f.Blocks[a].MsgBlock().Transactions[0]
 			op := wire.OutPoint{Hash: acb.TxHash(), Index: 0}
-			if _, unspent := mine[op]; !unspent && acb.TxOut[0].Value == subsidy {
-				// make sure no other block on this branch between a and b re-created it already
+			if _, unspent := bb.mine[op]; !unspent && acb.TxOut[0].Value == subsidy && len(acb.TxOut) == 1 && len(acb.TxIn[0].SignatureScript) == 10 {
 				cbScript = acb.TxIn[0].SignatureScript
+				dup = true
 				break
 			}
 		}
 	}
 	cb.AddTxIn(&wire.TxIn{PreviousOutPoint: *wire.NewOutPoint(&chainhash.Hash{}, wire.MaxPrevOutIndex),
 		SignatureScript: cbScript, Sequence: wire.MaxTxInSequenceNum})
-	cbVal := int64(subsidy)
-	if flaw == "connect" && f.Rule == nil {
-		cbVal++ // pays one satoshi more than subsidy + fees (fees are burned: outputs = inputs)
-	}
-	cb.AddTxOut(&wire.TxOut{Value: cbVal, PkScript: opTrue})
-	txs := []*wire.MsgTx{cb}
+	cb.AddTxOut(&wire.TxOut{Value: subsidy, PkScript: opTrue})
+	bb.txs = []*wire.MsgTx{cb}
 
 	// spends: each available coin (mature coinbase or any earlier output on
 	// this branch) is spent with probability SpendP by its own transaction
-	// with one or two outputs
-	type cand struct {
-		op wire.OutPoint
-		c  Coin
-	}
-	var cands []cand
-	for op, c := range mine {
-		cands = append(cands, cand{op, c})
-	}
-	// deterministic order
-	for i := range cands {
-		for j := i + 1; j < len(cands); j++ {
-			if lessOP(cands[j].op, cands[i].op) {
-				cands[i], cands[j] = cands[j], cands[i]
-			}
-		}
-	}
-	for _, cd := range cands {
-		if f.rng.Float64() >= f.SpendP {
-			continue
-		}
-		if cd.c.Coinbase && int32(f.Params.CoinbaseMaturity) > height-cd.c.Height {
+	// with one to three outputs; some pay a fee which the coinbase claims to
+	// the last satoshi
+	for _, cd := range bb.avail {
+		if f.rng.Float64() >= f.SpendP || !bb.spendable(cd.c) || len(cd.c.PkScript) == 0 || cd.c.PkScript[0] == txscript.OP_0 {
 			continue
 		}
 		tx := wire.NewMsgTx(1)
-		tx.LockTime = uint32(b*1000 + len(txs)) // unique txids: no accidental BIP30 collisions
+		tx.LockTime = uint32(b*1000 + len(bb.txs)) // unique txids: no accidental BIP30 collisions
 		tx.AddTxIn(&wire.TxIn{PreviousOutPoint: cd.op, Sequence: wire.MaxTxInSequenceNum})
-		if f.rng.Intn(2) == 0 || cd.c.Amount < 2 {
-			tx.AddTxOut(&wire.TxOut{Value: cd.c.Amount, PkScript: opTrue})
-		} else {
-			half := cd.c.Amount / 2
-			tx.AddTxOut(&wire.TxOut{Value: half, PkScript: opTrue})
-			tx.AddTxOut(&wire.TxOut{Value: cd.c.Amount - half, PkScript: []byte{txscript.OP_1, txscript.OP_NOP}})
+		amt := cd.c.Amount
+		fee := int64(0)
+		if !dup && f.FeeP > 0 && f.rng.Float64() < f.FeeP && amt > 10000 {
+			fee = int64(1 + f.rng.Intn(5000))
 		}
-		txs = append(txs, tx)
-		delete(mine, cd.op)
+		amt -= fee
+		switch {
+		case f.rng.Intn(2) == 0 || amt < 4:
+			tx.AddTxOut(&wire.TxOut{Value: amt, PkScript: opTrue})
+		default:
+			half := amt / 2
+			tx.AddTxOut(&wire.TxOut{Value: half, PkScript: opTrue})
+			tx.AddTxOut(&wire.TxOut{Value: amt - half - 1, PkScript: []byte{txscript.OP_1, txscript.OP_NOP}})
+			tx.AddTxOut(&wire.TxOut{Value: 1, PkScript: []byte{txscript.OP_0}}) // an output nobody can spend (script leaves false)
+		}
+		bb.fees += fee
+		bb.txs = append(bb.txs, tx)
+		delete(bb.mine, cd.op)
 		h := tx.TxHash()
 		for i, o := range tx.TxOut {
 			op := wire.OutPoint{Hash: h, Index: uint32(i)}
-			mine[op] = Coin{o.Value, o.PkScript, false, height}
+			bb.mine[op] = Coin{o.Value, o.PkScript, false, height}
 			f.Universe[op] = true
 		}
 	}
-	cbh := cb.TxHash()
-	cop := wire.OutPoint{Hash: cbh, Index: 0}
-	mine[cop] = Coin{cbVal, opTrue, true, height}
-	f.Universe[cop] = true
-	f.utxo[b] = mine
 
-	blk := &wire.MsgBlock{Header: wire.BlockHeader{Version: 0x20000000, PrevBlock: *parent.Hash()}}
-	for _, tx := range txs {
-		blk.AddTransaction(tx)
-	}
+	bb.hdr = wire.BlockHeader{Version: 0x20000000, PrevBlock: *parent.Hash()}
 	pts := parent.MsgBlock().Header.Timestamp
 	if sc.Work[b] >= 2 {
-		blk.Header.Timestamp = pts.Add(time.Second)
-		blk.Header.Bits = hardBits
+		bb.hdr.Timestamp = pts.Add(time.Second)
+		bb.hdr.Bits = hardBits
 	} else {
-		blk.Header.Timestamp = pts.Add(1201 * time.Second)
-		blk.Header.Bits = easyBits
+		bb.hdr.Timestamp = pts.Add(1201 * time.Second)
+		bb.hdr.Bits = easyBits
 	}
-	if flaw == "context" && f.Rule == nil {
-		// timestamp equal to the median time past of the parent: not after it
-		blk.Header.Timestamp = f.mtp(p)
-		blk.Header.Bits = hardBits
+
+	// the rule this block violates (flawed blocks) or sits exactly on (valid blocks)
+	if flaw != "none" {
+		r := f.pickRule(bb, flaw)
+		f.RuleName[b] = r.Name
+		r.Apply(bb)
+	} else if f.Catalogue && f.rng.Float64() < f.EdgeP {
+		if e := f.pickEdge(bb); e != nil {
+			f.RuleName[b] = "edge:" + e.Name
+			e.Edge(bb)
+		}
 	}
-	ub := make([]*btcutil.Tx, len(txs))
-	for i, tx := range txs {
-		ub[i] = btcutil.NewTx(tx)
+
+	// finalise
+	if len(bb.txs) > 0 && blockchain.IsCoinBaseTx(bb.txs[0]) && len(bb.txs[0].TxOut) > 0 {
+		bb.txs[0].TxOut[0].Value = subsidy + bb.fees + bb.cbDelta
+		cop := wire.OutPoint{Hash: bb.txs[0].TxHash(), Index: 0}
+		bb.mine[cop] = Coin{bb.txs[0].TxOut[0].Value, bb.txs[0].TxOut[0].PkScript, true, height}
+		f.Universe[cop] = true
 	}
-	blk.Header.MerkleRoot = blockchain.CalcMerkleRoot(ub, false)
-	if flaw == "sanity" && f.Rule == nil {
-		blk.Header.MerkleRoot[0] ^= 0x55
+	f.utxo[b] = bb.mine
+	blk := &wire.MsgBlock{Header: bb.hdr}
+	for _, tx := range bb.txs {
+		blk.AddTransaction(tx)
 	}
-	if flaw != "none" && f.Rule != nil {
-		f.Rule(f, b, blk)
+	if len(bb.txs) > 0 {
+		ub := make([]*btcutil.Tx, len(bb.txs))
+		for i, tx := range bb.txs {
+			ub[i] = btcutil.NewTx(tx)
+		}
+		hasWitness := false
+		for _, tx := range bb.txs {
+			if tx.HasWitness() {
+				hasWitness = true
+			}
+		}
+		_ = hasWitness
+		blk.Header.MerkleRoot = blockchain.CalcMerkleRoot(ub, false)
 	}
-	solve(&blk.Header)
+	if bb.post != nil {
+		bb.post(&blk.Header)
+	}
+	if bb.unsolved {
+		unsolve(&blk.Header)
+	} else {
+		solve(&blk.Header)
+	}
 	ublk := btcutil.NewBlock(blk)
 	ublk.SetHeight(height)
 	f.Blocks[b] = ublk
 	f.ByHash[*ublk.Hash()] = b
+}
+
+func unsolve(h *wire.BlockHeader) {
+	target := blockchain.CompactToBig(h.Bits)
+	for n := uint32(0); ; n++ {
+		h.Nonce = n
+		hash := h.BlockHash()
+		if blockchain.HashToBig(&hash).Cmp(target) > 0 {
+			return
+		}
+	}
 }
 
 func lessOP(a, b wire.OutPoint) bool {
